@@ -19,7 +19,7 @@ func init() {
 	property("C05",
 		"Static conformance: the optimize flag is read only to choose the order in which the same chunk map is rendered (flag confinement), jump suppression is decided at render time against the actual next chunk (C01.f, both directions), every registered label is referenced on every path after its registration (no label without a reference), the order is a duplicate-free list starting at chunk 0 (C04.f) chosen without map-order dependence (C17.a).",
 		[]string{"scheme argument of DESIGN §4 C05: with C01.f the text of each chunk transfers control to the same successors whatever the order"},
-		"C05.a", "C05.c", "C01.f", "C04.a", "C04.b", "C04.f", "C17.a", "C17.f", "C20.e")
+		"C05.a", "C05.c", "C01.f", "C04.a", "C04.b", "C04.f", "C17.a", "C17.f", "C20.e", "C04.c")
 
 	register(&Rule{ID: "C04.a", Doc: "every label reference uses the script name and an id registered before it on every path", Floor: 17, Run: c04a})
 	register(&Rule{ID: "C04.b", Doc: "labels rendered iff entry or registered; every chunk rendered once with its own body; next-chunk id computed from the order", Floor: 8, Run: c04b})
@@ -447,8 +447,12 @@ func c04c(c *Ctx) {
 				c.OK(key, pos, "destination is the merged entry id of the condition (checked in C01.e)")
 			case v == splitR || (strings.HasPrefix(v, "$") && !strings.Contains(v, ".")):
 				c.Check(mayLeave || fn.Name() == "createConditionDestination" || strings.HasPrefix(v, "$"), key, pos, "destination is a return id / parameter handed in by the caller", "a destination that may be 'leave' (-1) is stored in "+typ+"."+field+", which is rendered without a -1 test")
-			case strings.Contains(v, "]#0") && (strings.Contains(v, ".ScopeStatment") || strings.Contains(v, ".LoopStatment")):
-				c.OK(key, pos, "destination read from the break/continue tables")
+			case strings.Contains(v, "]#0") && strings.Contains(v, ".ScopeStatment"):
+				// the point after the loop / switch that is broken out of: a return id, which is
+				// 'leave' (-1) when that construct is the last statement of the script
+				c.Check(mayLeave, key, pos, "destination read from the break table (may be 'leave'; rendered with a -1 test)", "the destination of a break — the return point of the construct it leaves, -1 when that construct ends the script — is stored in "+typ+"."+field+", which is rendered without a -1 test: 'goto <script>_-1', or nothing at all, would be emitted")
+			case strings.Contains(v, "]#0") && strings.Contains(v, ".LoopStatment"):
+				c.OK(key, pos, "destination read from the continue table (a loop's entry chunk)")
 			default:
 				c.Bad(key, pos, typ+"."+field+" is set to "+pretty(v)+", which is not a chunk id created here, a return id, or a condition entry id")
 			}
